@@ -84,6 +84,15 @@ Definition h3w_clean (r : h3wres) : bool := h3wres_eqb r (W3 H3Clean).
 Inductive coding := CGzip | CDeflate | CBr | CZstd.
 Definition empty_is_empty_body (c : coding) : bool :=
   match c with CDeflate => false | _ => true end.
+(* andybalholm/brotli's Reader returns a clean io.EOF when its source runs dry at the start
+   of a Read call, finished stream or not (BrotliReader, known finding): whether a proper
+   non-empty prefix of a brotli stream is reported as truncated depends on where the reads
+   fall, so a case cannot tell; every other decoder rejects such a prefix *)
+Definition prefix_verdict_unknown (c : coding) (zlen : N) (d : bytes) : bool :=
+  match c, d with
+  | CBr, _ :: _ => lenN d <? zlen
+  | _, _ => false
+  end.
 Definition dec_by_len (c : coding) (zlen plen : N) (d : bytes) : option bytes :=
   if lenN d =? zlen then Some (repeat x00 (N.to_nat plen))
   else match d with
